@@ -186,3 +186,88 @@ Eval vm_compute in [%s].
         if int(st) != cst or ib != cbytes:
             diffs.append("%s %s with budget %d: C status %d bytes %s, translated program status %s bytes %s" % (op, v, B, cst, cbytes, st, ib))
     return diffs, cov
+
+
+def run_ts(ctx, rng, n):
+    """sbdf_ts_read (translated: flag array subset[i], t->columns + i as an out-cell, sbdf_cs_skip / sbdf_cs_read / sbdf_ts_destroy as
+    callees) against the compiled function: table slices of 0..3 columns, with and without a column subset, complete or cut, under
+    allocation schedules - status and stream position"""
+    from vlib import name_hex
+    cases = []; plan = []
+    for i in range(n):
+        ncols = rng.choice([0, 1, 2, 3])
+        e = G.Enc(False)
+        e.sec(rng.choice([3, 3, 3, 3, 5, 4])); e.i32(rng.choice([ncols, ncols, ncols, ncols, ncols + 1, -1]))
+        tys = []
+        for c in range(ncols):
+            ty = rng.choice([t for t in ALLTYPES])
+            cnt = rng.choice([0, 1, 2, 5])
+            elems = rand_array(rng, ty, cnt)
+            if ty in (STRING, BINARY): elems = [x[:6] for x in elems]
+            lay = G.random_layout(rng, ty, elems)
+            e.sec(4); e.va(ty, elems, lay)
+            props = rng.sample([(b"IsInvalid", BOOL), (b"p", 2)], rng.choice([0, 0, 1]))
+            e.i32(len(props))
+            for pn, pty in props:
+                pel = rand_array(rng, pty, cnt)
+                e.string(pn); e.va(pty, pel, G.random_layout(rng, pty, pel))
+            tys.append(ty)
+        body = bytes(e.b)
+        kind = rng.choice(["full", "full", "full", "cut", "trail"])
+        if kind == "cut": data = body[:rng.randint(0, len(body))]
+        elif kind == "trail": data = body + bytes([rng.getrandbits(8)])
+        else: data = body
+        if len(data) > 400: continue
+        sub = rng.choice(["*", "*", "".join(rng.choice("01") for _ in range(ncols)) or "*"])
+        fail = rng.choice([-1, -1, 0, 1, 2, 3, 4, 6, 9])
+        lines = ["mdnew 1", "tmnew 1 1"]
+        for c in range(ncols):
+            lines += ["mdnew %d" % (c + 2), "cmset %d %s %d" % (c + 2, name_hex(b"c%d" % c), tys[c]), "tmadd 1 %d" % (c + 2)]
+        lines += ["in 1 %s" % hx(data), ("allocfail %d" % fail) if fail >= 0 else "nallocs", "rts 1 31 1 %s" % sub, "pos 1"]
+        cases.append(Case("t%d" % len(plan), lines, compare=False)); plan.append((ncols, data, sub, fail, len(lines)))
+    res = vlib.run_cases(cases, ctx["harness"], None)
+    coq = os.path.join(vlib.V, "coq")
+    d = tempfile.mkdtemp(prefix="impdiffts-", dir=vlib.CACHE)
+    evals = []
+    for (ncols, data, sub, fail, nl) in plan:
+        sl = "[%s]" % "; ".join(str(b) for b in data)
+        mem = [] if sub == "*" else [int(ch != "0") for ch in sub] + [0]
+        subv = "VNull" if sub == "*" else "VPtr RIn 0"
+        evals.append("outC (callC prog_env %d prog_sbdf_ts_read [tok; VCell 0 0; %s; tok] [%s] (%d) %s [Some [VNull; VInt %d; VNull]])"
+                     % (FUEL, subv, "; ".join(str(x) for x in mem), fail, sl, ncols))
+    src = """From Sbdf Require Import ImpCall Gen.Prog ImpBase.
+From Coq Require Import List ZArith. Import ListNotations.
+Local Open Scope Z_scope.
+Definition outC (o : outcome) : Z * Z := match o with OReturn (VInt st) fin => (st, match Imp.lookup strm_var (vars fin) with Some (VBytes l) => Z.of_nat (List.length l) | _ => -1 end) | OFault => (1000, 0) | OFuel => (2000, 0) | _ => (3000, 0) end.
+Eval vm_compute in [%s].
+""" % ";\n  ".join(evals)
+    open(os.path.join(d, "Cases.v"), "w").write(src)
+    with vlib.Lock():
+        ok, log = vlib.coq_make(["ImpCall.vo", "Gen/Prog.vo", "ImpBase.vo"])
+    try:
+        r = subprocess.run(["timeout", "600", "coqc", "-Q", coq, "Sbdf", "Cases.v"], cwd=d, capture_output=True, text=True, timeout=700)
+    finally:
+        shutil.rmtree(d, ignore_errors=True)
+    cov = {"imp_ts_runs": len(plan), "imp_ts_compared": 0, "imp_ts_not_comparable": 0}
+    if r.returncode != 0:
+        return ["the generated sbdf_ts_read could not be run in Coq (exit %d): %s" % (r.returncode, (r.stdout + r.stderr)[-400:])], cov
+    pairs = re.findall(r"\((-?\d+),(-?\d+)\)", re.sub(r"\s|%Z", "", r.stdout))
+    if len(pairs) != len(plan):
+        return ["unexpected output of the Coq run of sbdf_ts_read (%d results for %d runs)" % (len(pairs), len(plan))], cov
+    diffs = []
+    for idx, ((ncols, data, sub, fail, nl), (st, rem)) in enumerate(zip(plan, pairs)):
+        st, rem = int(st), int(rem)
+        c, _ = res.get("t%d" % idx, (None, None))
+        if c is None or c.crash:
+            diffs.append("ts_read on %s: the C side crashed" % hx(data)[:60]); continue
+        cst = c.val(nl - 1); cpos = c.val(nl)
+        if cst is None or cpos is None: continue
+        cst = int(cst.split()[0]); cpos = int(cpos)
+        if st in (1000, 2000): cov["imp_ts_not_comparable"] += 1; continue
+        cov["imp_ts_compared"] += 1
+        if st != cst:
+            diffs.append("sbdf_ts_read on %s (subset %s%s): C status %d, translated program %d" % (hx(data)[:80], sub, ", allocation %d fails" % fail if fail >= 0 else "", cst, st)); continue
+        ipos = len(data) - rem
+        if cst == 0 and cpos != ipos and not (cpos > len(data) and rem == 0):
+            diffs.append("sbdf_ts_read on %s (subset %s): C position %d, translated program %d" % (hx(data)[:80], sub, cpos, ipos))
+    return diffs, cov
